@@ -66,6 +66,7 @@ def groups(tier, seed):
         for chunk in range(8):
             yield {'kind': 'mode-disk', 'type': t, 'chunk': chunk}
     yield {'kind': 'mode-special'}
+    yield {'kind': 'special-content'}
     for nib in (0o10, 0o04, 0o12, 0o01, 0o02, 0o06, 0o14):
         yield {'kind': 'mode-zip', 'nibble': nib}
     yield {'kind': 'lstat'}
@@ -221,6 +222,62 @@ def eval_group(env, group, tier):
                 te = type_expect(m)
                 exp[n] = tuple([stat.filemode(m)] + perm_expect(m) + te + [te[3], te[4]])
             row_outcomes(group, rows, exp, cols, outs, 'mode-special')
+        elif kind == 'special-content':
+            # entries whose content cannot or must not be read (pipe, socket, devices, dangling link) next to a file and links to it:
+            # every column answers promptly, attribute columns are the entry's own, location columns decompose the entry's own path
+            body = '#!x\nabc\n'
+            tree = {'fifo': {'t': 'p'}, 'sock': {'t': 's'}, 'cdev': {'t': 'c'}, 'bdev': {'t': 'b'}, 'reg': F(data=body, xattr={'user.k': 'v'}),
+                    'lreg': L('reg'), 'lfifo': L('fifo'), 'ldang': L('nowhere'), 'ldir': L('sub'), 'sub': D({'in': F(1)}), 'plain': F(data='zz')}
+            core.materialise(root, tree)
+            os.setxattr(os.path.join(root, 'lreg'), 'trusted.own', b'mine', follow_symlinks=False)
+            only = group.get('only')
+            g = {k_: v_ for k_, v_ in group.items() if k_ != 'only'}
+            sha = hashlib.sha1(body.encode()).hexdigest()
+            E = ('', 'false')
+            checks = [
+                (['line_count', 'sha1', 'is_shebang', 'contains(abc)'],
+                 {'reg': ('2', sha, 'true', 'true'), 'plain': ('0', hashlib.sha1(b'zz').hexdigest(), 'false', 'false'),
+                  'fifo': ('', '', E, E), 'sock': ('', '', E, E), 'cdev': ('', '', E, E), 'bdev': ('', '', E, E), 'ldang': ('', '', E, E), 'lfifo': ('', '', E, E)}),
+                (['has_xattrs', 'xattr(user.k)', 'has_xattr(user.k)', 'capabilities', 'has_caps()', 'xattr(trusted.own)'],
+                 {'reg': ('true', 'v', 'true', '', 'false', ''), 'plain': ('false', '', 'false', '', 'false', ''),
+                  'lreg': ('true', '', 'false', '', 'false', 'mine'), 'ldang': ('false', '', 'false', '', 'false', ''),
+                  'lfifo': ('false', '', 'false', '', 'false', ''), 'fifo': ('false', '', 'false', '', 'false', ''),
+                  'sock': ('false', '', 'false', '', 'false', ''), 'cdev': ('false', '', 'false', '', 'false', ''), 'bdev': ('false', '', 'false', '', 'false', '')}),
+                (['mime', 'is_text', 'is_binary', 'sha256', 'sha512', 'sha3'], {}),
+                (['abspath', 'absdir', 'dir', 'path'], 'location'),
+            ]
+            for cols, exp in checks:
+                key = ','.join(cols)
+                if only is not None and key != only:
+                    continue
+                o = env.run(['name, ' + ', '.join(cols) + ' from . maxdepth 1 into list'], cwd=root, timeout=8.0)
+                rws = o.rows(1 + len(cols))
+                r = {'case': {'group': g, 'row': key}, 'layer': 'special-content', 'nt': True, 'trans': len(tree)}
+                bad = None
+                if o.timeout:
+                    r.update(status='viol', cls='special-content:hang', detail=dict(o.brief(), columns=cols), sig=('hang',))
+                    outs.append(r)
+                    continue
+                if o.panicked or o.rc != 0 or rws is None or len(rws) != len(tree):
+                    r.update(status='viol', cls='special-content:status', detail=dict(o.brief(), columns=cols), sig=('err',))
+                    outs.append(r)
+                    continue
+                got = {x[0]: tuple(x[1:]) for x in rws}
+                if exp == 'location':
+                    for n, (ap, ad, d_, p_) in got.items():
+                        if ap != ad + '/' + n or ad != os.path.realpath(root) or p_ != './' + n and p_ != n:
+                            bad = (n, 'abspath', (ap, ad, d_, p_), ad + '/' + n)
+                else:
+                    for n, want in exp.items():
+                        for c_, w_, v_ in zip(cols, want, got.get(n, ())):
+                            if (v_ not in w_) if isinstance(w_, tuple) else (v_ != w_):
+                                bad = (n, c_, v_, w_)
+                if bad:
+                    r.update(status='viol', cls='special-content:' + bad[1], sig=('sc', bad[1]),
+                             detail={'entry': bad[0], 'column': bad[1], 'got': bad[2], 'expected': bad[3]})
+                else:
+                    r.update(status='ok', sig=('sc', key))
+                outs.append(r)
         elif kind == 'mode-zip':
             nib = group['nibble']
             buf = io.BytesIO()
